@@ -241,6 +241,56 @@ def main():
                         rep["compares"] += 1
                         if a_ != b_:
                             bad("ScalarEqualsOneMonthSeries:%s:boundary" % name, dict(value=v, nutrient=which, flags=[inc_f, inc_p], scalar=a_, series=b_))
+            # the comparison predicates where one nutrient ties and the others are strictly apart: a single value and the one-month
+            # series of it agree; and a predicate, whatever the shapes of its operands, leaves them as they were
+            for which in range(3):
+                for d1, d2 in ((1.0, 1.0), (-1.0, -1.0), (1.0, -1.0), (0.0, 1.0), (0.0, 0.0)):
+                    xs, ys = [10.0, 10.0, 10.0], [10.0, 10.0, 10.0]
+                    o1, o2 = [i for i in range(3) if i != which]
+                    xs[o1] += d1
+                    xs[o2] += d2
+                    for name in BIN_PREDS:
+                        res = []
+                        for series in (False, True):
+                            w = (lambda q: np.array([q])) if series else (lambda q: q)
+                            u = "billion kcals each month" if series else "billion kcals"
+                            t = "thousand tons each month" if series else "thousand tons"
+                            x_, y_ = Food(w(xs[0]), w(xs[1]), w(xs[2]), u, t, t), Food(w(ys[0]), w(ys[1]), w(ys[2]), u, t, t)
+                            try:
+                                res.append(bool(getattr(x_, name)(y_)))
+                            except BaseException as ex:  # noqa
+                                res.append("Error:" + repr(ex)[:80])
+                        rep["compares"] += 1
+                        if res[0] != res[1]:
+                            bad("ScalarEqualsOneMonthSeries:%s:tie" % name, dict(x=xs, y=ys, tie=which, flags=[inc_f, inc_p], scalar=res[0], series=res[1]))
+                        # mixed shapes (refusing is fine, touching the operands is not)
+                        for sx, sy in ((False, True), (True, False)):
+                            mkf = lambda vals, ser: Food(*( [np.array([q, q]) for q in vals] if ser else list(vals) ),
+                                                         *(("billion kcals each month", "thousand tons each month", "thousand tons each month") if ser
+                                                           else ("billion kcals", "thousand tons", "thousand tons")))
+                            x_, y_ = mkf(xs, sx), mkf(ys, sy)
+                            b1, b2 = snap(x_), snap(y_)
+                            try:
+                                getattr(x_, name)(y_)
+                            except BaseException:  # noqa
+                                pass
+                            if not same_snap(b1, snap(x_)) or not same_snap(b2, snap(y_)):
+                                bad("OperandsUnchanged:%s:mixed-shapes" % name, dict(x=xs, y=ys, shapes=[sx, sy], flags=[inc_f, inc_p]))
+                            for o_ in (x_, y_):
+                                if list(o_.units) != [o_.kcals_units, o_.fat_units, o_.protein_units]:
+                                    bad("LabelListAgrees:%s:mixed-shapes" % name, dict(x=xs, y=ys, shapes=[sx, sy], units=list(o_.units)))
+    # ... and the clipping helper that takes a single-valued replacement
+    for ser_repl in (False, True):
+        a_ = Food(np.array([0.0, 1.0]), np.array([0.0, 1.0]), np.array([0.0, 1.0]), "billion kcals each month", "thousand tons each month", "thousand tons each month")
+        r_ = (Food(np.array([5.0, 5.0]), np.array([5.0, 5.0]), np.array([5.0, 5.0]), "billion kcals each month", "thousand tons each month", "thousand tons each month")
+              if ser_repl else Food(5.0, 5.0, 5.0, "billion kcals", "thousand tons", "thousand tons"))
+        b1, b2 = snap(a_), snap(r_)
+        try:
+            a_.replace_if_list_with_zeros_is_zero(a_, r_)
+        except BaseException:  # noqa
+            pass
+        if not same_snap(b2, snap(r_)) or list(r_.units) != [r_.kcals_units, r_.fat_units, r_.protein_units]:
+            bad("OperandsUnchanged:replace_if_list_with_zeros_is_zero", dict(series_replacement=ser_repl, units=list(r_.units)))
     Food.conversions.set_nutrition_requirements(2100, 47, 51, True, True, 1e7)
     json.dump(rep, open(sys.argv[2], "w"))
 
